@@ -66,7 +66,9 @@ class ExportConfigFortran(ExportConfig):
             else:
                 if len(shape)>1:
                     dims = ",".join(str(s) for s in shape)
-                    lines.append(f"  {dtype}, dimension ({dims}), parameter :: {name} = reshape([{value}],[{dims}])")
+                    # values are listed in DIP (row-major) order, Fortran fills arrays column-major
+                    order = ",".join(str(d) for d in range(len(shape),0,-1))
+                    lines.append(f"  {dtype}, dimension ({dims}), parameter :: {name} = reshape([{value}],[{dims}],order=[{order}])")
                 else:
                     shape = ",".join(str(s) for s in shape)
                     lines.append(f"  {dtype}, dimension ({shape}) :: {name} = [{value}];")
